@@ -1,9 +1,11 @@
 import CapyV.Driver.C25
+import CapyV.Driver.C17
 open CapyV.Driver
 
 def dispatch (line : String) : String :=
   match words line with
   | "C25" :: args => c25 args
+  | "C17" :: args => c17 args
   | _ => "bad-op"
 
 partial def loop (h : IO.FS.Stream) (out : IO.FS.Stream) : IO Unit := do
